@@ -98,8 +98,8 @@ PROPS = {
     'C30': {
         'title': 'File-format codecs round-trip and reject malformed input',
         'level': 'model_checking',
-        'level_text': 'Header and commit-footer codecs: complete proofs (Kani/CBMC, loop-free harnesses over ALL header values, ALL 4096-byte images, ALL footer values, ALL 56-byte images, compiled inside the real crate): decode(encode(v)) == v, encode rejects exactly the invalid headers, an accepted image is the canonical encoding of the value returned (so a wrong magic/version/spec/wal_offset/wal_size is rejected and no different value is returned). Time index: BOUNDED (n <= 3 entries, every i64/u64 value): append_track sorts by (timestamp, frame_id), permutes, length = 12+16n, read_track returns exactly those; an arbitrary image of 12+16n bytes with an arbitrary declared length is accepted only with the right magic, length and order, and never panics. TOC (serde/bincode) is NOT covered.',
-        'level_note': 'Level is model_checking because the time-index part is bounded by the entry count (n <= 3; n <= 2 in the quick tier) and the TOC codec is not covered at all (serde-derived bincode visitors over String/BTreeMap are outside both tools). The header/footer parts are complete (no bound). blake3::Hasher is stubbed in the time-index harnesses (the checksum value plays no role in these obligations).',
+        'level_text': 'Header and commit-footer codecs: complete proofs (Kani/CBMC, loop-free harnesses over ALL header values, ALL 4096-byte images, ALL footer values, ALL 56-byte images, compiled inside the real crate): decode(encode(v)) == v, encode rejects exactly the invalid headers, an accepted image is the canonical encoding of the value returned (so a wrong magic/version/spec/wal_offset/wal_size is rejected and no different value is returned). Time index: BOUNDED (n <= 3 entries, every i64/u64 value): append_track sorts by (timestamp, frame_id), permutes, length = 12+16n, read_track returns exactly those; an arbitrary image of 12+16n bytes with an arbitrary declared length is accepted only with the right magic, length and order, and never panics. TOC: only the decision logic of Toc::verify_checksum is verified (modular, encoders and hash replaced by ghost functions): the stored checksum is accepted iff it is the digest of a zero-checksum encoding in a format that covers every optional field present (current; V2 only without replay_manifest; V1 only without memories_track and replay_manifest). Toc::encode / decode themselves (serde/bincode) are NOT covered.',
+        'level_note': 'Level is model_checking because the time-index part is bounded by the entry count (n <= 3; n <= 2 in the quick tier) and the TOC codec is covered only in the decision logic of verify_checksum (serde-derived bincode visitors over String/BTreeMap are outside both tools). The header/footer parts are complete (no bound). blake3::Hasher is stubbed in the time-index harnesses (the checksum value plays no role in these obligations).',
         'technique': 'Kani loop-free full-domain codec harnesses (complete) + bounded Kani harnesses for the time index, inside the real crate',
         'design_ref': 'DESIGN.md section 3 (C30)',
         'verus': [],
@@ -112,10 +112,12 @@ PROPS = {
             H(TIX, 'time_track_roundtrip_n3', 'thorough', 'bounded', '3 entries, all i64/u64 values'),
             H(TIX, 'time_track_rejects_n0', 'quick', 'bounded', 'all 12-byte images, any declared length'),
             H(TIX, 'time_track_rejects_n1', 'thorough', 'bounded', 'all 28-byte images, any declared length'),
+            H('toc', 'toc_verify_checksum_decision', 'quick', 'modular', '', playback=False),
         ],
         'assumptions': [A_HASH, A_LE, A_TRACE, A_TOOLS, A_KANI_STUBS,
+                        'A-TOCENC: in toc_verify_checksum_decision the three bincode encoders and blake3 are replaced by ghost functions that keep the format tag, a digest of the optional fields the format covers, and whether the checksum field was zeroed (the encoders themselves are not verified)',
                         'std::io::Cursor<Vec<u8>> stands for the file in the time-index harnesses (real std code, not a stub)'],
-        'not_covered': ['TOC: Toc::encode / decode / verify_checksum (serde-derived bincode with legacy fall-backs) - no contract within reach of Verus or CBMC',
+        'not_covered': ['TOC: Toc::encode / decode (serde-derived bincode with legacy fall-backs, trailing-bytes rejection) - no contract within reach of Verus or CBMC; only the checksum decision logic is covered',
                         'time index with more than 3 entries (bounded)', 'checksum values (blake3 stubbed)'],
         'search': {'header|footer': 'codec', 'time_index': 'codec'},
     },
@@ -227,7 +229,7 @@ PROPS = {
     'C22': {
         'title': 'No panic or hang on arbitrary file bytes',
         'level': 'model_checking',
-        'level_text': 'DECODER LAYER ONLY.  Proved without bound (Verus on functions extracted verbatim; overflow, index bounds and termination are proof obligations): find_last_valid_footer on every byte string; locate_footer_window (src/memvid/lifecycle.rs, the window-doubling scan used by open / open_read_only / verify) on every byte string, checked against find_last_valid_footer\'s contract.  Proved complete by loop-free Kani harnesses over the full input domain: HeaderCodec::decode on all 4096-byte images, CommitFooter::decode on all 56-byte images and on every wrong length, SketchTrackHeader::from_bytes / SketchEntrySmall::from_bytes on all images.  BOUNDED (Kani): read_track on every image of 12 / 28 bytes with every declared length (entry count and length fields fully symbolic); EmbeddedWal::scan_records on region images of 64 / 112 bytes with enumerated length fields.  Kani checks every panic, arithmetic overflow, slice index, unwrap and allocation-size failure on the explored paths.',
+        'level_text': 'DECODER LAYER ONLY.  Proved without bound (Verus on functions extracted verbatim; overflow, index bounds and termination are proof obligations): find_last_valid_footer on every byte string; locate_footer_window (src/memvid/lifecycle.rs, the window-doubling scan used by open / open_read_only / verify) on every byte string, checked against find_last_valid_footer\'s contract.  Proved complete by loop-free Kani harnesses over the full input domain: HeaderCodec::decode on all 4096-byte images, CommitFooter::decode on all 56-byte images and on every wrong length, SketchTrackHeader::from_bytes / SketchEntrySmall::from_bytes on all images.  BOUNDED (Kani): read_track on every image of 12 / 28 bytes with every declared length (entry count and length fields fully symbolic); verify_toc_prefix (the guard in front of the TOC decoder) on every image of 0 / 8 / 23 / 24 / 120 bytes: never panics and accepts exactly the images whose version and counts are within the limits and whose minimum payload fits; EmbeddedWal::scan_records on region images of 64 / 112 bytes with enumerated length fields.  Kani checks every panic, arithmetic overflow, slice index, unwrap and allocation-size failure on the explored paths.',
         'level_note': 'This claim detects regressions in the byte decoders and in the footer window scan; it does NOT cover the layers above them: TOC decode under catch_unwind, index loading, tantivy, recover_toc / doctor / verify logic (1 600 + 1 700 lines of Memvid code) are outside both tools (DESIGN.md section 4, reason W).  read_sketch_track as a whole did not answer within the caps (HashMap) and is covered only through its header/entry decoders.',
         'technique': 'Verus totality proofs (bounds, overflow, decreases) on extracted functions + Kani full-domain / bounded decoder harnesses',
         'design_ref': 'DESIGN.md section 3 (C22)',
@@ -237,6 +239,9 @@ PROPS = {
             H(SKT, 'sketch_header_rejects_bad_magic'), H(SKT, 'sketch_small_bytes_roundtrip'),
             H(TIX, 'time_track_rejects_n0', 'quick', 'bounded', 'all 12-byte images, any declared length'),
             H(TIX, 'time_track_rejects_n1', 'thorough', 'bounded', 'all 28-byte images, any declared length'),
+            H('memvid::lifecycle', 'toc_prefix_len0', 'quick', 'bounded', 'empty image'), H('memvid::lifecycle', 'toc_prefix_len8', 'quick', 'bounded', 'all 8-byte images'),
+            H('memvid::lifecycle', 'toc_prefix_len23', 'quick', 'bounded', 'all 23-byte images'), H('memvid::lifecycle', 'toc_prefix_len24', 'quick', 'bounded', 'all 24-byte images'),
+            H('memvid::lifecycle', 'toc_prefix_len120', 'quick', 'bounded', 'all 120-byte images'),
         ],
         'assumptions': [A_MEMRCHR, A_HASH, A_LE, A_TRACE, A_ARITH, A_TOOLS, A_KANI_STUBS,
                         'locate_footer_window is checked against the CONTRACT of find_last_valid_footer (proved in the footer unit), not its body'],
